@@ -3,6 +3,7 @@ import vf
 from checks import objects_common as oc
 
 LEVEL = "model_checking"
+PROVISIONAL = oc.PROVISIONAL      # F3 (shared with C12) and F-proj16; see objects_common.finding_entry
 
 
 def run(ctx):
@@ -35,5 +36,6 @@ META = dict(
                 "24-bit and 16-bit output to the float output (soft clipper included), stream by stream for multistream, and a stated "
                 "tolerance with saturation for the projection decoder."),
     level_note=("The sample relations are exact integer relations but their expected side is computed by the harness from the float twin "
-                "(DESIGN 6.2); TLC compares counts/digests. Sampled configurations and signals."),
+                "(DESIGN 6.2); TLC compares counts/digests. Sampled configurations and signals. Findings F3 (reset with in-band FEC, C12's) and "
+                "F-proj16 (16-bit projection output wraps) are matched by shape in the trace spec and reported as KNOWN-FINDING."),
 )
